@@ -137,7 +137,7 @@ def r15_2(ctx):
 
 
 def r15_3(ctx):
-    from .c14 import _counter_incs
+    from .c14 import _counter_incs, _counter_writes
     prog = ctx.prog
     run = _test_run(prog)
     sb, ve, rv = _exec_err_switch(run)
@@ -151,8 +151,9 @@ def r15_3(ctx):
     only = reg - others
     incs = [(bb, nm) for bb, si, nm in _counter_incs(run) if bb in only]
     names = sorted(nm for _, nm in incs)
-    ctx.check(names == ["count_skipped"], "skip-arm-counters", run.loc(sb), "the Skipped arm increments count_skipped once and no other counter",
-              "the Skipped arm increments %s" % names)
+    writes = sorted({nm for bb, si, nm in _counter_writes(run) if bb in only})
+    ctx.check(names == ["count_skipped"] and writes == ["count_skipped"], "skip-arm-counters", run.loc(sb), "the Skipped arm increments count_skipped once and writes no other counter",
+              "the Skipped arm increments %s and writes %s" % (names, writes))
     # leaves through `continue`: reaches the loop back edge, constructs no error result
     reaches_back = any(b in reg for (b, s) in back)
     errs = [bb for bb, si, rvv in aggregates(run, "ValidationFailedError") if bb in only]
